@@ -3,7 +3,8 @@ import random
 
 from harness import calls, pool, trace
 
-ALPHA = [97, 98, 99, 65, 66, 32, 32, 34, 39, 44, 40, 41, 233, 201, 223, 8364, 0x4E2D, 0x1F600, 48, 49, 46, 45]
+ALPHA = [97, 98, 99, 65, 66, 32, 32, 34, 39, 44, 40, 41, 233, 201, 223, 8364, 0x4E2D, 0x1F600, 48, 49, 46, 45,
+         9, 10, 160, 0x3000, 0x2003]      # white space other than the blank: no function may take it for one
 
 
 def rtext(rng, maxlen):
@@ -23,6 +24,16 @@ def T(s):
 
 def N(n):
     return {'t': 'num', 'n': n, 'd': 1}
+
+
+def noisy_number(rng):
+    """a short decimal n/d and a double a few ulps away from it: the number Excel shows (15 significant digits) is n/d,
+    so its text form is the text form of n/d (10.1+0.2 is 10.3, not 10.299999999999999)"""
+    d = rng.choice([1, 2, 4, 5, 10, 10, 100, 1000])
+    n = rng.choice([1, 3, 7, 103, 205, 999, 1001, 12345, 99999, 314159]) * rng.choice([1, 1, -1])
+    if abs(n) >= d * 10 ** 6:
+        n = n // 1000
+    return {'t': 'num', 'n': n, 'd': d}, rng.choice([-2, -1, 1, 2])
 
 
 def driver(seed, count):
@@ -60,8 +71,28 @@ def driver(seed, count):
             args = [T(s)] + [T(rtext(rng, 8)[:8]) if rng.random() < 0.7 else N(rng.randint(-99, 999))
                              for _ in range(rng.randint(1, 4))]
         path = 'formula' if i % 3 == 0 else ('wrapped' if i % 3 == 1 else 'direct')
-        ev.append({'f': f, 'args': args, 'path': path})
+        e = {'f': f, 'args': args, 'path': path}
+        if i % 10 == 7:      # a number with binary noise in the last places where a text is expected
+            x, ulps = noisy_number(rng)
+            g = rng.choice(['LEN', 'LEFT', 'RIGHT', 'MID', 'CONCAT', 'EXACT', 'UPPER', 'TRIM', 'FIND'])
+            from fractions import Fraction
+            fr = Fraction(x['n'], x['d'])
+            x = {'t': 'num', 'n': fr.numerator, 'd': fr.denominator}
+            a2 = {'LEN': [x], 'UPPER': [x], 'TRIM': [x], 'LEFT': [x, N(rng.randint(0, 9))], 'RIGHT': [x, N(rng.randint(0, 9))],
+                  'MID': [x, N(rng.randint(1, 4)), N(rng.randint(0, 9))], 'CONCAT': [x, T([])], 'EXACT': [x, x],
+                  'FIND': [T([46]), x]}[g]
+            e = {'f': g, 'args': a2, 'path': path if path != 'formula' else 'wrapped', 'ulps': ulps}
+        ev.append(e)
     return ev
+
+
+def _noisy(a, ulps, spelling):
+    import math
+    L = calls.xl.lib()
+    x = a['n'] / a['d']
+    for _ in range(abs(ulps)):
+        x = math.nextafter(x, math.inf if ulps > 0 else -math.inf)
+    return L.ft.Number(x) if spelling == 'wrapped' else x
 
 
 def record(chunk):
@@ -70,6 +101,15 @@ def record(chunk):
         if e['path'] == 'formula':
             res, stored, text = calls.formula_call(e['f'], e['args'])
             e = dict(e, formula=[ord(c) for c in text])
+        elif 'ulps' in e:
+            sp = 'native' if e['path'] == 'direct' else 'wrapped'
+            L = calls.xl.lib()
+            try:
+                pargs = [_noisy(a, e['ulps'], sp) if a['t'] == 'num' and i == (1 if e['f'] == 'FIND' else 0) or (e['f'] == 'EXACT' and a['t'] == 'num')
+                         else calls.xl.from_abs(a, sp) for i, a in enumerate(e['args'])]
+                res = calls.xl.to_abs(L.xl.FUNCTIONS[e['f']](*pargs))
+            except Exception as ex:      # noqa
+                res = calls.xl.to_abs(ex)
         else:
             res = calls.direct_call(e['f'], e['args'], 'native' if e['path'] == 'direct' else 'wrapped')
         out.append(dict(e, res=res))
